@@ -37,6 +37,8 @@ type leafTx struct {
 }
 
 func runC08(c *eng.Ctx, thorough bool) {
+	c08ListWindow(c)
+	cacheLockOwner(c, "C08.5")
 	// ---------- C08.1 family discovery
 	c.Clause("R8", "C08.1")
 	txIface := c.P.NamedType("physical.Transaction")
